@@ -82,6 +82,7 @@ FINDING_PLANE = "F-hydro-coincident-pressure-plane"
 FINDING_SAME = "F-hydro-same-branch-flag"
 KINDS = ["sphere", "ellipsoid", "cube", "box", "cylinder", "capsule"]
 REL_TOL = 0.05            # the property's tolerance
+FAR_THIRD_BODY = 2600.0   # distance of the third body of relation after_far_third_body (no contact with it)
 CORR_TOL = 1e-9           # model <-> implementation
 
 
@@ -521,6 +522,17 @@ def relation(ctx, name, case, A, B, expB12, expB21, ppA, ppB, lever, bodiesB, sw
             finding, detail = classify_flag(B, bodiesB)
         else:
             finding, detail = classify_flag(A, bodies_of_run_A(case))
+    else:
+        # the flag differs and with it the forces: the known coincident-pressure-field defect only if EVERY contact
+        # of the run that reports an intersection is a tetrahedron pair whose two pressure fields coincide (its
+        # contact plane is normalised rounding noise, so the pair comes and goes with the frame). A rejected pair
+        # with a well-defined plane is never excused here.
+        recT, bodT = (B, bodiesB) if B["flag"] else (A, bodies_of_run_A(case))
+        prs = recT["pairs"]
+        if prs and all(coincident_fields(bodT, i, j) for (i, j) in prs):   # pair indices are in recT's own order
+            finding, detail = FINDING_PLANE, {"coincident_pairs": [list(p) for p in prs[:6]], "n": len(prs)}
+        else:
+            detail = {"flag_and_forces_differ": True, "n_pairs_true_run": len(prs)}
     ctx.fail("contact_forces:" + name, {"case": case, "relation": name},
              {"problems": problems, "got_w12": B["w12"].tolist(), "got_w21": B["w21"].tolist(), "classification": detail},
              {"w12": expB12.tolist(), "w21": expB21.tolist(), "tolerance": "5 %% of |f| (torques: times lever %.3g)" % lever},
@@ -603,6 +615,21 @@ def eval_case(ctx, case, want_dump=False, light=False):
         run_cf(h2, h3)
         D = run_cf(h1, h2)
         relation(ctx, "interleaved2", case, A, D, A["w12"], A["w21"], ppA, per_pair_world(D), lever, (h1, h2))
+    if not light and case["stream"] != "L":
+        # 4d. body 2 was body 1 of an earlier query against a FAR third body (no contact there), so it is stored in a
+        #     frame whose origin is thousands of units from the contact; the query (1, 2) then runs entirely in that
+        #     frame (plane offsets ~|far|). Nothing moved in the world: must reproduce the query on fresh bodies. A
+        #     tolerance made relative to the plane offset or to the coordinates' magnitude shows here on shallow contacts.
+        #     Not on the lattice stream: its exactly touching faces / coincident fields sit ON the decision boundaries of
+        #     the narrow phase, and coordinates of magnitude 2600 carry 5e-13 of rounding, so there the flag of a
+        #     zero-area, zero-force touching contact is a tie, not a statement of the property (seen: seed 2).
+        fdir = np.array([0.64, -0.48, 0.6])
+        Tf = np.eye(4)
+        Tf[:3, 3] = fdir * FAR_THIRD_BODY
+        k1, k2, k3 = make_body(s1), make_body(s2), make_body(moved(s3, Tf))
+        run_cf(k2, k3)
+        K = run_cf(k1, k2)
+        relation(ctx, "after_far_third_body", case, A, K, A["w12"], A["w21"], ppA, per_pair_world(K), lever, (k1, k2))
     if not light:
         # 4b. bodies used at another configuration, then moved IN PLACE (`body.body2origin_[:3, 3] += v * dt`, the way
         #     the library's own examples move bodies) to the configuration of the case and queried again on the same
@@ -1043,6 +1070,59 @@ def separated_case():
     return {"stream": "M", "b1": b1, "b2": b2, "b3": b3, "g": pose4(PERM_ROTS[7], [1.0, -2.0, 0.5]).tolist()}
 
 
+def shallow_case(rng):
+    """a grazing contact: the two bodies are pushed together along a random direction just past the separation at which
+    the real code first reports a contact (bisection on the intersection flag of fresh bodies), by a few thousandths of a
+    length unit. The forces are tiny and carried by few tetrahedron pairs that barely cross the contact plane."""
+    case = gen_case(rng, "G")
+    p1 = np.array(case["b1"]["pose"])[:3, 3]
+    p2 = np.array(case["b2"]["pose"])[:3, 3]
+    u = p2 - p1
+    n = float(np.linalg.norm(u))
+    if n < 1e-9:
+        u, n = np.array([1.0, 0.0, 0.0]), 1.0
+    u = u / n
+    size = (char_size(case["b1"]["kind"], case["b1"]["params"]) + char_size(case["b2"]["kind"], case["b2"]["params"]))
+
+    def at(dist):
+        b2 = dict(case["b2"])
+        T = np.array(b2["pose"], dtype=float)
+        T[:3, 3] = p1 + u * dist
+        b2["pose"] = T.tolist()
+        return b2
+
+    def flag(dist):
+        try:
+            return run_cf(make_body(case["b1"]), make_body(at(dist)))["flag"]
+        except Exception:  # noqa
+            return False
+    lo, hi = 0.5 * size, 4.0 * size          # lo: contact, hi: separated
+    if not flag(lo) or flag(hi):
+        return None
+    for _ in range(14):
+        mid = 0.5 * (lo + hi)
+        if flag(mid):
+            lo = mid
+        else:
+            hi = mid
+    depth = rng.choice([0.002, 0.003, 0.004, 0.006])
+    out = dict(case)
+    out["b2"] = at(lo - depth)
+    out["stream"] = "S"
+    return out
+
+
+def shallow_cases(ctx, n):
+    out = []
+    for _ in range(3 * n):
+        if len(out) >= n:
+            break
+        c = shallow_case(ctx.rng)
+        if c is not None:
+            out.append(c)
+    return out
+
+
 def corpus():
     return [separated_case(), witness_polygon_case()]
 
@@ -1089,6 +1169,8 @@ def search(ctx):
         eval_case(ctx, case)
     n = ctx.budget(22, 300) * (2 if ctx.extra.get("search_boost") else 1)
     for case in all_cases(ctx, n):
+        eval_case(ctx, case)
+    for case in shallow_cases(ctx, ctx.budget(5, 40)):
         eval_case(ctx, case)
 
 
